@@ -1,13 +1,13 @@
 SPECIFICATION Spec
 CONSTANTS
-  FSKinds = {"std", "mem", "rec"}
+  FSKinds = {"mem", "rec"}
   PathIds = {1, 3}
   Vals = {2, 5}
   MaxRecs = 2
   MemPaths = {1, 2, 3}
   Avoid = {}
   Mirror = FALSE
-  MaxLevel = 5
+  MaxLevel = 6
   SimK = 0
 CONSTRAINT LevelBound
 INVARIANT TypeOK
